@@ -5,7 +5,8 @@
 //!   G\t<id>\t<x>\t<grammar sexp>   and   V\t<id>\t<stream>\t<input hex>\t<obs>   real VM on to_optimized(unroll G)+restore, for the Spec oracle
 //!   W\t<name>\t<x>\t<grammar sexp>\t<rule>\t<input hex>\t<obs>               named witnesses through parse_and_optimize + Vm
 //!   CONTRACT\t<class>\t<pass>\t<x>\t<grammar sexp>\t<input hex>\t<before>\t<after>   real VM before vs after a pass differ
-//!   #PROBE ... / #SUMMARY ...
+//!   #PROBE ... / #SUMMARY ... / #SEARCH ... (mode `search`: the escalated search the driver starts only after a proof obligation or the
+//!   structural correspondence broke and the ordinary streams found no failing input; prints CONTRACT lines, needs no model)
 use pest_meta::ast::{Expr, Rule, RuleType};
 use pest_meta::optimizer::{self, OptimizedRule};
 use pvharness::gram::*;
@@ -72,7 +73,7 @@ fn vm_all(rules: &[OptimizedRule], inputs: &[String]) -> Vec<String> {
     inputs.iter().map(|i| observe(&vm, "top__", i, true)).collect()
 }
 
-struct Stats { evals: u64, fired: [u64; 9], seen: HashSet<String>, distinct_fired: u64, panics: u64, vm_runs: u64, vm_diff_known: u64, contracts: u64 }
+struct Stats { evals: u64, fired: [u64; 9], seen: HashSet<String>, distinct_fired: u64, panics: u64, vm_runs: u64, vm_diff_known: u64, contracts: u64, inputs: u64 }
 
 /// one P line; returns the output rules when the pass returned normally
 fn p_line(w: &mut Out, st: &mut Stats, pass: u32, input: &[Rule], x: bool) -> Option<Vec<Rule>> {
@@ -185,14 +186,24 @@ fn shaped(r: &mut Rng, kind: u32, x: bool, wild: bool, huge_ok: bool) -> Vec<GRu
                    3 => { let m = r.below(4) as u32; GE::RepMM(bx(inner), m, if wild && r.chance(1, 4) { r.below(3) as u32 } else { (m + r.below(3) as u32).max(1) }) }
                    4 => GE::Rep1(bx(inner)), _ => GE::RepMM(bx(inner), 2, if big > 3 { big } else { 3 }) };
                ctx(r, e, 0, n, &c) }
-        3 => { rules[0].ty = mostly(r, Ty::Atomic); let k = 2 + r.below(4) as usize; let ins = r.chance(1, 2);
-               let leaves = (0..k).map(|_| match r.weighted(&[10, 2, 1]) { 0 => if ins { GE::Ins(["X", "y", "xY", "É", ""][r.below(5) as usize].into()) } else { s(&strlit(r)) },
-                   1 => if ins { s(&strlit(r)) } else { GE::Ins("y".into()) }, _ => small(r, 0, n, &c) }).collect();
+        3 => { rules[0].ty = mostly(r, Ty::Atomic); let k = 2 + r.below(4) as usize;
+               // literals of one kind with an odd one out, or both kinds mixed freely (a case-sensitive literal next to a case-insensitive one)
+               let mode = r.below(3);
+               let leaves = (0..k).map(|_| { let ins = match mode { 0 => r.chance(2, 13), 1 => r.chance(11, 13), _ => r.chance(1, 2) };
+                   if r.chance(1, 13) { small(r, 0, n, &c) } else if ins { GE::Ins(["X", "y", "xY", "É", "", "x", "Yx"][r.below(7) as usize].into()) } else { s(&strlit(r)) } }).collect();
                let lean = [0, 2, 4][r.below(3) as usize]; let t = tree(r, leaves, seq, lean); ctx(r, t, 0, n, &c) }
         4 => { let a = small(r, 0, n, &c); let a2 = if r.chance(3, 4) { a.clone() } else { small(r, 0, n, &c) }; let b = small(r, 0, n, &c); let d = small(r, 0, n, &c);
                if r.chance(1, 2) { rules[0].ty = [Ty::Atomic, Ty::Compound][r.below(2) as usize]; }
-               let e = match r.below(5) { 0 => cho(seq(a, b), seq(a2, d)), 1 => cho(seq(a, b), a2), 2 => cho(a, seq(a2, b)),
-                   3 => cho(seq(a.clone(), b), cho(seq(a2, d), a)), _ => cho(cho(seq(a.clone(), b), seq(a2, d)), a) };
+               // two expressions of which the first matches a prefix of what the second matches (or the other way round): ordered choice
+               // commits to the first that matches, so such heads / tails tell a sound factoring from an unsound one
+               let (h1, h2) = { let p = ["x", "y", "xy"][r.below(3) as usize]; let q = format!("{}{}", p, ["x", "y", "yx"][r.below(3) as usize]); let e = small(r, 0, n, &c);
+                   let (u, v) = match r.below(6) { 0 | 1 => (s(p), s(&q)), 2 => (GE::Ins(p.into()), s(&q)), 3 => (e.clone(), seq(e, small(r, 0, n, &c))), 4 => (e.clone(), GE::Rep1(bx(e))),
+                       _ => (GE::Opt(bx(e.clone())), e) };
+                   if r.chance(3, 4) { (u, v) } else { (v, u) } };
+               let t = if r.chance(1, 2) { s(&strlit(r)) } else { small(r, 0, n, &c) };
+               let e = match r.weighted(&[2, 2, 2, 2, 2, 3, 1, 1]) { 0 => cho(seq(a, b), seq(a2, d)), 1 => cho(seq(a, b), a2), 2 => cho(a, seq(a2, b)),
+                   3 => cho(seq(a.clone(), b), cho(seq(a2, d), a)), 4 => cho(cho(seq(a.clone(), b), seq(a2, d)), a),
+                   5 => cho(seq(h1, t.clone()), seq(h2, t)), 6 => cho(seq(h1, t.clone()), cho(seq(h2, t), d)), _ => cho(seq(a, h1), seq(a2, h2)) };
                ctx(r, e, 0, n, &c) }
         5 => { let a = small(r, 0, n, &c); let a2 = if r.chance(4, 5) { a.clone() } else { small(r, 0, n, &c) }; let b = small(r, 0, n, &c);
                let e = seq(GE::Rep(bx(seq(a, b))), a2); ctx(r, e, 0, n, &c) }
@@ -218,7 +229,112 @@ fn alphabet(g: &[GRule]) -> Vec<&'static str> {
     if a.len() == 2 { a.push("z"); }
     a
 }
-fn compare(w: &mut Out, st: &mut Stats, class: &str, pass: u32, x: bool, g: &[Rule], inputs: &[String], before: &[String], after: &[String]) {
+fn children(e: &GE) -> Vec<&GE> {
+    use GE::*;
+    match e {
+        Pos(x) | Neg(x) | Opt(x) | Rep(x) | Rep1(x) | RepX(x, _) | RepMin(x, _) | RepMax(x, _) | RepMM(x, _, _) | Push(x) | Tag(_, x) | Roe(x) => vec![&**x],
+        Seq(l, r) | Cho(l, r) => vec![&**l, &**r],
+        _ => vec![],
+    }
+}
+fn with_children(e: &GE, mut c: Vec<GE>) -> GE {
+    use GE::*;
+    let mut one = || bx(c.remove(0));
+    match e {
+        Pos(_) => Pos(one()), Neg(_) => Neg(one()), Opt(_) => Opt(one()), Rep(_) => Rep(one()), Rep1(_) => Rep1(one()), RepX(_, n) => RepX(one(), *n),
+        RepMin(_, n) => RepMin(one(), *n), RepMax(_, n) => RepMax(one(), *n), RepMM(_, m, n) => RepMM(one(), *m, *n), Push(_) => Push(one()),
+        Tag(t, _) => Tag(t.clone(), one()), Roe(_) => Roe(one()), Seq(..) => { let l = one(); Seq(l, one()) } Cho(..) => { let l = one(); Cho(l, one()) }
+        leaf => leaf.clone(),
+    }
+}
+fn walk<'a>(e: &'a GE, f: &mut dyn FnMut(&'a GE)) { f(e); for c in children(e) { walk(c, f); } }
+fn size(e: &GE) -> usize { let mut n = 0; walk(e, &mut |_| n += 1); n }
+/// the k-th node in preorder
+fn nth(e: &GE, k: usize) -> GE { let mut i = 0; let mut out = None; walk(e, &mut |x| { if i == k { out = Some(x.clone()); } i += 1; }); out.unwrap() }
+/// replace the k-th node in preorder by f(node)
+fn replace_nth(e: &GE, k: &mut isize, f: &mut dyn FnMut(&GE) -> GE) -> GE {
+    if *k == 0 { *k = -1; return f(e); }
+    if *k < 0 { return e.clone(); }
+    *k -= 1;
+    let cs: Vec<GE> = children(e).into_iter().map(|c| replace_nth(c, k, f)).collect();
+    with_children(e, cs)
+}
+/// ASCII and Unicode case swap (a lower-case letter becomes its upper-case form and the other way round, when that is one character)
+fn swap_case(s: &str) -> String {
+    s.chars().map(|c| {
+        let one = |mut it: Box<dyn Iterator<Item = char>>| { let a = it.next(); if it.next().is_none() { a } else { None } };
+        if c.is_lowercase() { one(Box::new(c.to_uppercase())).unwrap_or(c) } else if c.is_uppercase() { one(Box::new(c.to_lowercase())).unwrap_or(c) } else { c }
+    }).collect()
+}
+/// every literal text of the grammar (strings, case-insensitive strings, pushed literals, stop sets, range bounds)
+fn literals(g: &[GRule]) -> Vec<String> {
+    let mut out: Vec<String> = vec![];
+    for r in g {
+        walk(&r.e, &mut |e| match e {
+            GE::Str(s) | GE::Ins(s) | GE::PushLit(s) => out.push(s.clone()),
+            GE::Skip(ss) => out.extend(ss.iter().cloned()),
+            GE::Range(a, b) => { out.push(a.to_string()); out.push(b.to_string()); }
+            _ => {}
+        });
+    }
+    out
+}
+fn push_new(v: &mut Vec<String>, seen: &mut HashSet<String>, s: String) { if !s.is_empty() && seen.insert(s.clone()) { v.push(s); } }
+/// the input alphabet derived from the grammar itself: the letters of alphabet(), every literal, its case-swapped / upper / lower forms,
+/// its proper prefixes, its characters (both cases), and one member of every character class the grammar names
+fn tokens(g: &[GRule]) -> Vec<String> {
+    let (mut v, mut seen) = (vec![], HashSet::new());
+    for a in alphabet(g) { push_new(&mut v, &mut seen, a.to_string()); }
+    let t = sexp_grammar(g);
+    for (pat, tok) in [("DIGIT", "0"), ("ALPHANUMERIC", "0"), ("NEWLINE", "\n"), ("ASCII_ALPHA", "a"), ("ASCII_HEX", "f")] { if t.contains(pat) { push_new(&mut v, &mut seen, tok.to_string()); } }
+    for l in literals(g) {
+        for f in [l.clone(), swap_case(&l), l.to_uppercase(), l.to_lowercase()] { push_new(&mut v, &mut seen, f); }
+        let idx: Vec<usize> = l.char_indices().map(|(i, _)| i).skip(1).collect();
+        for i in idx { push_new(&mut v, &mut seen, l[..i].to_string()); push_new(&mut v, &mut seen, swap_case(&l[..i])); }
+        for c in l.chars() { push_new(&mut v, &mut seen, c.to_string()); push_new(&mut v, &mut seen, swap_case(&c.to_string())); }
+    }
+    v
+}
+/// concatenations of at most `max_tok` tokens and `max_bytes` bytes, shortest first; a layer that would exceed `cap` is thinned evenly
+fn derived(toks: &[String], max_tok: usize, max_bytes: usize, cap: usize, out: &mut Vec<String>, seen: &mut HashSet<String>) {
+    let start = out.len();
+    let mut layer: Vec<String> = vec![String::new()];
+    for _ in 0..max_tok {
+        let mut next: Vec<String> = vec![];
+        let mut lseen: HashSet<String> = HashSet::new();
+        for w in &layer { for t in toks { if w.len() + t.len() <= max_bytes { let s = format!("{}{}", w, t); if lseen.insert(s.clone()) { next.push(s); } } } }
+        let fresh: Vec<&String> = next.iter().filter(|s| !seen.contains(*s)).collect();
+        let room = cap.saturating_sub(out.len() - start);
+        let step = if fresh.len() > room && room > 0 { (fresh.len() + room - 1) / room } else { 1 };
+        let picked: Vec<String> = if room == 0 { vec![] } else { fresh.iter().step_by(step).map(|s| (*s).clone()).collect() };
+        for s in picked { seen.insert(s.clone()); out.push(s); }
+        if out.len() - start >= cap { break; }
+        layer = next;
+        if layer.len() > 40000 { layer = layer.into_iter().step_by(4).collect(); }
+    }
+}
+/// depth of the input search: Base = what every run does; Deep = escalated search and replays (a superset of Base for the same maxlen)
+#[derive(Clone, Copy, PartialEq)]
+enum Depth { Base, Mid, Deep }
+/// all strings up to `maxlen` over alphabet(g) (the first `.1` entries: these also go to the Spec oracle), then all short strings over that
+/// alphabet extended by the case-swapped letters, then concatenations of tokens derived from the grammar's literals
+fn inputs_for(g: &[GRule], maxlen: usize, depth: Depth, extra: &[String]) -> (Vec<String>, usize) {
+    let alpha = alphabet(g);
+    let mut out = all_strings(&alpha, maxlen);
+    let nbase = out.len();
+    let mut seen: HashSet<String> = out.iter().cloned().collect();
+    for s in extra { if seen.insert(s.clone()) { out.push(s.clone()); } }     // a recorded input (replay)
+    let toks = tokens(g);
+    let mut ext: Vec<String> = alpha.iter().map(|a| a.to_string()).collect();
+    for a in &alpha { let sw = swap_case(a); if !ext.contains(&sw) { ext.push(sw); } }
+    for t in &toks { if t.chars().count() == 1 && !ext.contains(t) && ext.len() < 8 { ext.push(t.clone()); } }
+    let extr: Vec<&str> = ext.iter().map(|s| s.as_str()).collect();
+    let (elen, ntok, nbytes, cap) = match depth { Depth::Base => (3, 3, 6, 300), Depth::Mid => (3, 4, 8, 1200), Depth::Deep => (4, 5, 10, 6000) };
+    for s in all_strings(&extr, elen) { if seen.insert(s.clone()) { out.push(s); } }
+    derived(&toks, ntok, nbytes, cap, &mut out, &mut seen);
+    (out, nbase)
+}
+fn compare(w: &mut Out, st: &mut Stats, class: &str, pass: u32, x: bool, g: &[Rule], inputs: &[String], before: &[String], after: &[String]) -> bool {
     let mut shown = 0;
     for (k, input) in inputs.iter().enumerate() {
         st.vm_runs += 1;
@@ -227,17 +343,23 @@ fn compare(w: &mut Out, st: &mut Stats, class: &str, pass: u32, x: bool, g: &[Ru
         shown += 1;
         if shown <= 2 { writeln!(w, "CONTRACT\t{}\t{}\t{}\t{}\t{}\t{}\t{}", class, pass, x as u8, sexp_grammar(&from_rules(g)), hex(input), before[k], after[k]).unwrap(); }
     }
+    shown > 0 && class != "lister"
 }
-fn semantic(w: &mut Out, st: &mut Stats, g: &[GRule], x: bool, maxlen: usize, stream: &str, gid: u64, emit_v: bool) {
+/// returns true when the real VM told the rules before and after some pass apart (outside the lister class)
+fn semantic(w: &mut Out, st: &mut Stats, g: &[GRule], x: bool, maxlen: usize, stream: &str, gid: u64, emit_v: bool, depth: Depth, extra: &[String]) -> bool {
     let base = to_rules(g);
-    let inputs = all_strings(&alphabet(g), maxlen);
-    let unrolled = match apply(&base, 2) { Some(u) => u, None => return };
-    let before_opt = match to_opt(&unrolled, true) { Some(o) => o, None => return };
-    let before = vm_all(&before_opt, &inputs);
+    let (mut inputs, nbase) = inputs_for(g, maxlen, depth, extra);
+    let mut found = false;
+    let unrolled = match apply(&base, 2) { Some(u) => u, None => return false };
+    let before_opt = match to_opt(&unrolled, true) { Some(o) => o, None => return false };
+    // a rule set that runs into the call limit on most inputs (a repetition that does not progress) says nothing on the additional inputs either
+    let mut before = vm_all(&before_opt, &inputs[..nbase]);
+    if before.iter().filter(|o| *o == "Limit").count() * 2 > nbase { inputs.truncate(nbase); } else { before.extend(vm_all(&before_opt, &inputs[nbase..])); }
+    st.inputs += inputs.len() as u64;
     if emit_v {
         writeln!(w, "G\t{}\t{}\t{}", gid, x as u8, sexp_grammar(g)).unwrap();
-        for (k, i) in inputs.iter().enumerate() { writeln!(w, "V\t{}\t{}\t{}\t{}", gid, stream, hex(i), before[k]).unwrap(); }
-        st.evals += inputs.len() as u64;
+        for (k, i) in inputs.iter().take(nbase).enumerate() { writeln!(w, "V\t{}\t{}\t{}\t{}", gid, stream, hex(i), before[k]).unwrap(); }
+        st.evals += nbase as u64;
     }
     for pass in [0u32, 1, 3, 4, 5] {
         let (src, src_is_base) = if pass < 2 { (&base, true) } else { (&unrolled, false) };
@@ -248,7 +370,7 @@ fn semantic(w: &mut Out, st: &mut Stats, g: &[GRule], x: bool, maxlen: usize, st
         st.fired[pass as usize] += 1;
         if st.seen.insert(format!("{}|{}", pass, sexp_grammar(&from_rules(src)))) { st.distinct_fired += 1; }
         let after = vm_all(&ao, &inputs);
-        compare(w, st, if pass == 5 { "lister" } else { "other" }, pass, x, src, &inputs, &before, &after);
+        found |= compare(w, st, if pass == 5 { "lister" } else { "other" }, pass, x, src, &inputs, &before, &after);
     }
     if let Some(po) = whole(&base) {
         if po != before_opt {
@@ -258,9 +380,140 @@ fn semantic(w: &mut Out, st: &mut Stats, g: &[GRule], x: bool, maxlen: usize, st
             st.fired[8] += 1;
             if st.seen.insert(format!("8|{}", sexp_grammar(g))) { st.distinct_fired += 1; }
             let after = vm_all(&po, &inputs);
-            compare(w, st, if lister { "lister" } else { "other" }, 8, x, &base, &inputs, &before, &after);
+            found |= compare(w, st, if lister { "lister" } else { "other" }, 8, x, &base, &inputs, &before, &after);
         }
     }
+    found
+}
+
+// ------------------------------------------------------------------------------------------------
+// escalated search (only after a proof obligation or the structural correspondence broke): the grammars on which the real pass and
+// the model differ, with inputs derived from their own literals, then variants of those grammars, then more generated grammars
+// ------------------------------------------------------------------------------------------------
+const BUILTINS: [&str; 19] = ["ANY", "SOI", "EOI", "PEEK", "PEEK_ALL", "POP", "POP_ALL", "DROP", "ASCII_DIGIT", "ASCII_NONZERO_DIGIT", "ASCII_BIN_DIGIT", "ASCII_OCT_DIGIT",
+    "ASCII_HEX_DIGIT", "ASCII_ALPHA_LOWER", "ASCII_ALPHA_UPPER", "ASCII_ALPHA", "ASCII_ALPHANUMERIC", "ASCII", "NEWLINE"];
+/// can the rule set be run: an entry rule r0, every name defined once and not a built-in, no recursion, no constructs of the other
+/// feature set, moderate counts and size
+fn runnable(g: &[GRule], x: bool) -> bool {
+    if g.is_empty() || g[0].name != "r0" { return false; }
+    let names: Vec<&str> = g.iter().map(|r| r.name.as_str()).collect();
+    for (i, n) in names.iter().enumerate() { if BUILTINS.contains(n) || names[..i].contains(n) { return false; } }
+    let mut ok = true;
+    let mut calls: Vec<Vec<usize>> = vec![];
+    for r in g {
+        let mut cs = vec![];
+        walk(&r.e, &mut |e| match e {
+            GE::Id(n) => { if let Some(k) = names.iter().position(|m| m == n) { cs.push(k); } else if !BUILTINS.contains(&n.as_str()) { ok = false; } }
+            GE::RepX(_, n) | GE::RepMin(_, n) | GE::RepMax(_, n) | GE::RepMM(_, _, n) => { if *n > 6 { ok = false; } }
+            GE::PushLit(_) | GE::Tag(..) if !x => ok = false,
+            GE::Roe(_) => ok = false,
+            _ => {}
+        });
+        if size(&r.e) > 60 { ok = false; }
+        calls.push(cs);
+    }
+    // implicit calls: every non-atomic sequence / repetition calls WHITESPACE and COMMENT
+    let implicit: Vec<usize> = names.iter().enumerate().filter(|(_, n)| **n == "WHITESPACE" || **n == "COMMENT").map(|(i, _)| i).collect();
+    fn cyclic(k: usize, calls: &[Vec<usize>], state: &mut Vec<u8>) -> bool {
+        if state[k] == 1 { return true; } if state[k] == 2 { return false; }
+        state[k] = 1;
+        for &c in &calls[k] { if cyclic(c, calls, state) { return true; } }
+        state[k] = 2; false
+    }
+    for (i, cs) in calls.iter_mut().enumerate() { if !implicit.contains(&i) { cs.extend(implicit.iter().cloned()); } }
+    let mut state = vec![0u8; g.len()];
+    ok && !(0..g.len()).any(|k| cyclic(k, &calls, &mut state))
+}
+/// positions (rule, preorder index) of the string literals
+fn literal_sites(g: &[GRule]) -> Vec<(usize, usize, String)> {
+    let mut out = vec![];
+    for (ri, r) in g.iter().enumerate() { let mut i = 0; walk(&r.e, &mut |e| { if let GE::Str(s) | GE::Ins(s) = e { out.push((ri, i, s.clone())); } i += 1; }); }
+    out
+}
+fn set_node(g: &mut [GRule], ri: usize, k: usize, f: &mut dyn FnMut(&GE) -> GE) { let mut kk = k as isize; g[ri].e = replace_nth(&g[ri].e, &mut kk, f); }
+fn relit(e: &GE, t: String) -> GE { match e { GE::Ins(_) => GE::Ins(t), _ => GE::Str(t) } }
+/// leftmost leaf along the sequence spine (the "head" of an alternative): preorder offset within e
+fn head_offset(e: &GE) -> usize { match e { GE::Seq(l, _) => 1 + head_offset(l), _ => 0 } }
+/// one variant of a rule set: one to three of
+///   literals made prefixes / extensions of each other, literal kind or letter case changed, a sub-expression replaced by a literal or by a copy
+///   of another sub-expression (structural equalities are what the rewrites look for), the heads of the two sides of a choice made to
+///   overlap (ordered choice is sensitive to exactly that), the entry rule wrapped in a repetition / optional / sequence, a rule type changed,
+///   implicit whitespace / comments switched on
+fn mutate(g0: &[GRule], r: &mut Rng) -> Vec<GRule> {
+    let mut g = g0.to_vec();
+    let ext = ["x", "y", "xy", "X"];
+    for _ in 0..1 + r.below(3) {
+        let ri = if r.chance(2, 3) { 0 } else { r.below(g.len() as u64) as usize };
+        let n = size(&g[ri].e);
+        match r.below(11) {
+            0 => { let sites = literal_sites(&g); if sites.len() >= 2 {
+                       let i = r.below(sites.len() as u64) as usize; let mut j = r.below(sites.len() as u64 - 1) as usize; if j >= i { j += 1; }
+                       let t = format!("{}{}", sites[i].2, if r.chance(1, 3) { sites[j].2.clone() } else { ext[r.below(3) as usize].to_string() });
+                       set_node(&mut g, sites[j].0, sites[j].1, &mut |e| relit(e, t.clone())); } }
+            1 => { let sites = literal_sites(&g); if !sites.is_empty() {
+                       let (ri, k, t) = sites[r.below(sites.len() as u64) as usize].clone();
+                       let t = if t.chars().any(|c| c.is_ascii_alphabetic()) { t } else { "x".to_string() };
+                       set_node(&mut g, ri, k, &mut |e| match e { GE::Ins(_) => GE::Str(t.clone()), _ => GE::Ins(t.clone()) }); } }
+            2 => { let sites = literal_sites(&g); if !sites.is_empty() {
+                       let (ri, k, t) = sites[r.below(sites.len() as u64) as usize].clone();
+                       let t = match r.below(3) { 0 => t.to_uppercase(), 1 => t.to_lowercase(), _ => swap_case(&t) };
+                       set_node(&mut g, ri, k, &mut |e| relit(e, t.clone())); } }
+            3 => { let toks = tokens(&g); let t = toks[r.below(toks.len() as u64) as usize].clone(); let ins = r.chance(1, 4);
+                   let k = r.below(n as u64) as usize; set_node(&mut g, ri, k, &mut |_| if ins { GE::Ins(t.clone()) } else { GE::Str(t.clone()) }); }
+            4 => { let (a, b) = (r.below(n as u64) as usize, r.below(n as u64) as usize); let src = nth(&g[ri].e, b);
+                   if size(&src) + n <= 40 { set_node(&mut g, ri, a, &mut |_| src.clone()); } }
+            5 | 6 => { let mut chos = vec![]; { let mut i = 0; walk(&g[ri].e, &mut |e| { if let GE::Cho(l, _) = e { chos.push((i, size(l))); } i += 1; }); }
+                   if !chos.is_empty() {
+                       let (k, lsize) = chos[r.below(chos.len() as u64) as usize];
+                       let c = nth(&g[ri].e, k);
+                       if let GE::Cho(l, rr) = &c {
+                           let (hl, hr) = (k + 1 + head_offset(l), k + 1 + lsize + head_offset(rr));
+                           let p = ["x", "y", "xy"][r.below(3) as usize].to_string(); let q = format!("{}{}", p, ext[r.below(3) as usize]);
+                           let (first, second) = if r.chance(3, 4) { (p, q) } else { (q, p) };
+                           let ins = r.chance(1, 6);
+                           set_node(&mut g, ri, hl, &mut |_| if ins { GE::Ins(first.clone()) } else { GE::Str(first.clone()) });
+                           set_node(&mut g, ri, hr, &mut |_| GE::Str(second.clone()));
+                       } } }
+            7 => { let e = g[0].e.clone(); let toks = tokens(&g); let t = s(&toks[r.below(toks.len() as u64) as usize]);
+                   g[0].e = match r.below(6) { 0 => GE::Rep(bx(e)), 1 => GE::Opt(bx(e)), 2 => seq(e, t), 3 => seq(t, e), 4 => cho(e, t), _ => GE::Rep1(bx(e)) }; }
+            8 => { g[ri].ty = any_ty(r); }
+            // implicit skipping switched on (what tells the rule types apart): WHITESPACE = _{ " " } or COMMENT = _{ "y" ~ " " } added
+            _ => { let (name, e) = if r.chance(2, 3) { ("WHITESPACE", s(" ")) } else { ("COMMENT", seq(s("y"), s(" "))) };
+                   if !g.iter().any(|x| x.name == name) { g.push(GRule { name: name.into(), ty: Ty::Silent, e }); } }
+        }
+    }
+    if g[0].ty == Ty::Silent { g[0].ty = Ty::Normal; }
+    g
+}
+fn sem_grammar(rng: &mut Rng, k: u64, x: bool) -> (Vec<GRule>, u32) {
+    let kind = (k % 8) as u32;
+    let g = if kind == 7 { let c = GenCfg { stack: rng.chance(1, 2), extras: x, counts: rng.chance(1, 2), builtins: rng.chance(1, 4) }; gen_grammar(rng, &c) }
+            else { shaped(rng, kind, x, false, false) };
+    let mut g = g; if g[0].ty == Ty::Silent { g[0].ty = Ty::Normal; }
+    (g, kind)
+}
+fn search(w: &mut Out, st: &mut Stats, file: &str, seed: u64, nvar: u64, nrand: u64, x: bool, maxlen: usize) {
+    let mut rng = Rng::new(seed);
+    let text = std::fs::read_to_string(file).unwrap_or_default();
+    let (mut given, mut skipped, mut variants, mut hits_given, mut hits_variant, mut hits_random) = (0u64, 0u64, 0u64, 0u64, 0u64, 0u64);
+    for line in text.lines().filter(|l| !l.trim().is_empty()) {
+        let g = match catch(|| parse_grammar(line.trim())) { Ok(g) => g, Err(_) => { skipped += 1; continue; } };
+        let mut g = g; if !g.is_empty() && g[0].ty == Ty::Silent { g[0].ty = Ty::Normal; }
+        if !runnable(&g, x) { skipped += 1; continue; }
+        given += 1;
+        if semantic(w, st, &g, x, maxlen, "search", 0, false, Depth::Deep, &[]) { hits_given += 1; continue; }
+        for _ in 0..nvar {
+            let v = mutate(&g, &mut rng);
+            if v == g || !runnable(&v, x) { continue; }
+            variants += 1;
+            if semantic(w, st, &v, x, maxlen, "search", 0, false, Depth::Mid, &[]) { hits_variant += 1; break; }
+        }
+    }
+    for k in 0..nrand {
+        let (g, _) = sem_grammar(&mut rng, k, x);
+        if semantic(w, st, &g, x, maxlen, "search", 0, false, Depth::Mid, &[]) { hits_random += 1; }
+    }
+    writeln!(w, "#SEARCH\tgiven={}\tskipped={}\tvariants={}\trandom={}\thits_given={}\thits_variant={}\thits_random={}\tinputs={}", given, skipped, variants, nrand, hits_given, hits_variant, hits_random, st.inputs).unwrap();
 }
 
 // ------------------------------------------------------------------------------------------------
@@ -343,7 +596,7 @@ fn main() {
     let x = cfg!(feature = "extras");
     let stdout = io::stdout();
     let mut w: Out = BufWriter::with_capacity(1 << 20, stdout.lock());
-    let mut st = Stats { evals: 0, fired: [0; 9], seen: HashSet::new(), distinct_fired: 0, panics: 0, vm_runs: 0, vm_diff_known: 0, contracts: 0 };
+    let mut st = Stats { evals: 0, fired: [0; 9], seen: HashSet::new(), distinct_fired: 0, panics: 0, vm_runs: 0, vm_diff_known: 0, contracts: 0, inputs: 0 };
     match mode.as_str() {
         "struct" => {
             let count = arg_u64(2, 500); let mut rng = Rng::new(arg_u64(3, 0)); let huge_ok = arg(4) == "huge";
@@ -366,20 +619,35 @@ fn main() {
         "sem" => {
             let count = arg_u64(2, 100); let mut rng = Rng::new(arg_u64(3, 0)); let maxlen = arg_u64(4, 5) as usize;
             for k in 0..count {
-                let kind = (k % 8) as u32;
-                let g = if kind == 7 { let c = GenCfg { stack: rng.chance(1, 2), extras: x, counts: rng.chance(1, 2), builtins: rng.chance(1, 4) }; gen_grammar(&mut rng, &c) }
-                        else { shaped(&mut rng, kind, x, false, false) };
-                let mut g = g; if g[0].ty == Ty::Silent { g[0].ty = Ty::Normal; }
+                let (g, kind) = sem_grammar(&mut rng, k, x);
                 let stream = ["rotate", "skip", "unroll", "concat", "factor", "list", "restore", "random"][kind as usize];
-                semantic(&mut w, &mut st, &g, x, maxlen, stream, k, kind == 2 || kind == 6 || k % 5 == 0);
+                semantic(&mut w, &mut st, &g, x, maxlen, stream, k, kind == 2 || kind == 6 || k % 5 == 0, Depth::Base, &[]);
             }
+        }
+        "search" => {
+            // the rule sets of the structural runs include cyclic references: filtered by runnable(); the thread is for the deep input sets
+            let (file, seed, nvar, nrand, maxlen) = (arg(2), arg_u64(3, 0), arg_u64(4, 20), arg_u64(5, 0), arg_u64(6, 5) as usize);
+            drop(w);
+            let h = std::thread::Builder::new().stack_size(256 << 20).spawn(move || {
+                let stdout = io::stdout();
+                let mut w: Out = BufWriter::with_capacity(1 << 20, stdout.lock());
+                let mut st = Stats { evals: 0, fired: [0; 9], seen: HashSet::new(), distinct_fired: 0, panics: 0, vm_runs: 0, vm_diff_known: 0, contracts: 0, inputs: 0 };
+                search(&mut w, &mut st, &file, seed, nvar, nrand, x, maxlen);
+                summary(&mut w, &st);
+            }).unwrap();
+            h.join().unwrap();
+            return;
         }
         "witness" => witnesses(&mut w, x),
         "probe" => probe(&mut w, x),
         "one" => { let g = parse_grammar(&arg(2)); structural(&mut w, &mut st, &g, x); }
-        "semone" => { let mut g = parse_grammar(&arg(2)); if g[0].ty == Ty::Silent { g[0].ty = Ty::Normal; } semantic(&mut w, &mut st, &g, x, arg_u64(3, 5) as usize, "replay", 0, true); }
-        _ => { eprintln!("usage: c05 struct COUNT SEED [huge] | sem COUNT SEED MAXLEN | witness | probe | one GRAMMAR | semone GRAMMAR MAXLEN"); std::process::exit(2); }
+        "semone" => { let mut g = parse_grammar(&arg(2)); if g[0].ty == Ty::Silent { g[0].ty = Ty::Normal; } let extra: Vec<String> = if arg(4).is_empty() { vec![] } else { vec![unhex_s(&arg(4))] };
+                      semantic(&mut w, &mut st, &g, x, arg_u64(3, 5) as usize, "replay", 0, true, Depth::Deep, &extra); }
+        _ => { eprintln!("usage: c05 struct COUNT SEED [huge] | sem COUNT SEED MAXLEN | search FILE SEED VARIANTS RANDOM MAXLEN | witness | probe | one GRAMMAR | semone GRAMMAR MAXLEN [INPUT-HEX]"); std::process::exit(2); }
     }
+    summary(&mut w, &st);
+}
+fn summary(w: &mut Out, st: &Stats) {
     writeln!(w, "#SUMMARY\tevaluations={}\tdistinct_nontrivial={}\tpanics={}\tvm_runs={}\tvm_diff_lister={}\tcontracts={}\t{}", st.evals + st.vm_runs, st.distinct_fired, st.panics, st.vm_runs,
         st.vm_diff_known, st.contracts, (0..9).map(|p| format!("fired{}={}", p, st.fired[p])).collect::<Vec<_>>().join("\t")).unwrap();
 }
